@@ -20,6 +20,7 @@ PROP = dict(
               "Shangrla.RiskLimit.example_style_exact",
               # with C02 (plurality, polling) and C03/C06 (card-level comparison); sampling with replacement
               "Shangrla.RiskLimit.plurality_null", "Shangrla.RiskLimit.plurality_polling_risk_limit",
+              "Shangrla.RiskLimit.supermajority_null", "Shangrla.RiskLimit.supermajority_polling_risk_limit",
               "Shangrla.RiskLimit.comparison_null", "Shangrla.RiskLimit.comparison_risk_limit",
               "Shangrla.RiskLimit.hitIIDG_map", "Shangrla.RiskLimit.audit_risk_limit_iid",
               "Shangrla.RiskLimit.audit_risk_limit_iid_run"],
